@@ -42,6 +42,13 @@ def build(rng, root):
         p = os.path.join(root, rel)
         os.makedirs(os.path.dirname(p), exist_ok=True)
         archives[rel] = make_zip(rng, p)
+    # the same archive under a second name (hard link: one inode, two entries) - both are searched
+    if rng.random() < 0.4:
+        src = rng.choice(sorted(archives))
+        alias = rng.choice(["alias.zip", "d2/alias.jar", "d1/e/alias.war"])
+        os.makedirs(os.path.dirname(os.path.join(root, alias)), exist_ok=True)
+        os.link(os.path.join(root, src), os.path.join(root, alias))
+        archives[alias] = archives[src]
     # files that are no archives by name (wrong extension) but are zips, and names that look like archives but are not zips
     p = os.path.join(root, "notzip.txt")
     make_zip(rng, p, 3)
@@ -400,8 +407,8 @@ def job_config(res, rng, w, home, job):
 def main(chk):
     quick = chk.tier == "quick"
     jobs = []
-    for i in range(64 if quick else 900):
-        jobs.append({"id": "r%d" % i, "kind": "random", "seed": job_seed(chk.seed, "C19", i), "queries": 4 if quick else 8})
+    for i in range(320 if quick else 1500):
+        jobs.append({"id": "r%d" % i, "kind": "random", "seed": job_seed(chk.seed, "C19", i), "queries": 5 if quick else 8})
     n = len(small_archive())
     step = 40
     for lo in range(0, n, step):
